@@ -21,6 +21,11 @@ NOW = 1700000000
 
 
 def load_config(**over):
+    # start from the pristine defaults: Config.load only sets the keys of the YAML file, so an attribute a previous
+    # suite of the same process had set (max_limit, subscription_limit, rate_limits, ...) would otherwise survive
+    fresh = type(Config)()
+    Config.__dict__.clear()
+    Config.__dict__.update(fresh.__dict__)
     Config.load(TEST_CONFIG, reload=True)
     Config.authentication = {"enabled": False}
     Config.garbage_collector = None
